@@ -175,15 +175,19 @@ def build():
                 emit(f(t, t))                                                                     # reflexive
                 if z3.is_app(t) and t.decl().kind() == z3.Z3_OP_STORE and z3.is_app(t.arg(2)) and t.arg(2).eq(none):
                     emit(f(t, t.arg(0)))                                                          # a removal shrinks
-            tl = list(terms.values())
-            for a in apps[nm]:
-                for b in apps[nm]:
-                    if a.arg(1).eq(b.arg(0)):
-                        emit(z3.Implies(z3.And(a, b), f(a.arg(0), b.arg(1))))                     # transitive
-                    elif not a.eq(b) and ((z3.is_const(a.arg(1)) and z3.is_app(b.arg(0)) and b.arg(0).decl().kind() == z3.Z3_OP_STORE)
-                                          or (z3.is_const(b.arg(0)) and z3.is_app(a.arg(1)) and a.arg(1).decl().kind() == z3.Z3_OP_STORE)):
+            pairs_done = st.setdefault("pairs", set())
+            info = [(a, a.get_id(), a.arg(0), a.arg(1)) for a in apps[nm]]
+            for a, ia, a0, a1 in info:
+                for b, ib, b0, b1 in info:
+                    if (ia, ib) in pairs_done:
+                        continue
+                    pairs_done.add((ia, ib))
+                    if a1.eq(b0):
+                        emit(z3.Implies(z3.And(a, b), f(a0, b1)))                                 # transitive
+                    elif ia != ib and ((z3.is_const(a1) and z3.is_app(b0) and b0.decl().kind() == z3.Z3_OP_STORE)
+                                       or (z3.is_const(b0) and z3.is_app(a1) and a1.decl().kind() == z3.Z3_OP_STORE)):
                         # ... also when the middle maps are equal only semantically (a map named by a callee's postcondition `M == mdel(M0, k)`)
-                        emit(z3.Implies(z3.And(a, b, a.arg(1) == b.arg(0)), f(a.arg(0), b.arg(1))))
+                        emit(z3.Implies(z3.And(a, b, a1 == b0), f(a0, b1)))
                     # removal composed: remove(k) of something that shrinks
             # every removal term over a base that is known to shrink something shrinks it too
             stores = [t for t in list(terms.values()) + [x for x in allstores.get(ms.z3().get_id(), {}).values()]
@@ -193,9 +197,14 @@ def build():
                 for ap in apps[nm]:
                     if ap.arg(0).eq(t.arg(0)):
                         emit(z3.Implies(ap, f(t, ap.arg(1))))
+            elim_done = st.setdefault("elim", set())
             for ap in apps[nm]:
                 hi, lo = ap.arg(0), ap.arg(1)
-                for k in keys.get(ms.z3().get_id(), {}).values():
+                iap = ap.get_id()
+                for kid, k in keys.get(ms.z3().get_id(), {}).items():
+                    if (iap, kid) in elim_done:
+                        continue
+                    elim_done.add((iap, kid))
                     emit(z3.Implies(ap, z3.Or(z3.Select(hi, k) == none, z3.Select(hi, k) == z3.Select(lo, k))))   # elimination
                 if z3.is_app(hi) and hi.decl().kind() == z3.Z3_OP_STORE and hi.arg(2).eq(none):
                     emit(z3.Implies(f(hi.arg(0), lo), ap))                                        # removal after shrinking still shrinks
@@ -383,8 +392,15 @@ def build():
 
     def extend_instances(formulas):
         out = []
-        fresh, st = new_subterms(formulas, "extend")
-        apps, keys, stores, allmaps = st.setdefault("apps", []), st.setdefault("keys", {}), st.setdefault("stores", {}), st.setdefault("allmaps", {})
+        fresh, vcst = new_subterms(formulas, "extend")
+        apps, keys, stores, allmaps = vcst.setdefault("apps", []), vcst.setdefault("keys", {}), vcst.setdefault("stores", {}), vcst.setdefault("allmaps", {})
+        seen_pairs = vcst.setdefault("pairs", set())
+
+        def first(*ids):
+            if ids in seen_pairs:
+                return False
+            seen_pairs.add(ids)
+            return True
         for f in fresh:
             if f.decl().name() == "extends_n":
                 apps.append(f)
@@ -416,15 +432,17 @@ def build():
                 if ap.arg(0).eq(st.arg(0)):
                     # E-restore: the base extends `orig minus k`; putting orig's own entry back under k extends orig
                     for o in allmaps.values():
-                        if not o.eq(lo) and not o.eq(st):
+                        if not o.eq(lo) and not o.eq(st) and first("restore", st.get_id(), ap.get_id(), o.get_id()):
                             emit(z3.Implies(z3.And(ap, lo == z3.Store(o, st.arg(1), none_n), st.arg(2) == z3.Select(o, st.arg(1))), ext_n(st, o)))
-        for a in apps:
-            for b in apps:
-                if a.arg(1).eq(b.arg(0)):
-                    emit(z3.Implies(z3.And(a, b), ext_n(a.arg(0), b.arg(1))))                                        # E-trans
-        for ap in apps:
-            for k in keys.values():
-                emit(z3.Implies(ap, z3.Or(z3.Select(ap.arg(1), k) == none_n, z3.Select(ap.arg(0), k) == z3.Select(ap.arg(1), k))))   # E-elim
+        info = [(a, a.get_id(), a.arg(0), a.arg(1)) for a in apps]
+        for a, ia, a0, a1 in info:
+            for b, ib, b0, b1 in info:
+                if first("trans", ia, ib) and a1.eq(b0):
+                    emit(z3.Implies(z3.And(a, b), ext_n(a0, b1)))                                                    # E-trans
+        for ap, iap, hi, lo in info:
+            for kid, k in keys.items():
+                if first("elim", iap, kid):
+                    emit(z3.Implies(ap, z3.Or(z3.Select(lo, k) == none_n, z3.Select(hi, k) == z3.Select(lo, k))))     # E-elim
         return out
 
     lib.extra_instantiators.append(extend_instances)
